@@ -17,7 +17,7 @@ suite() {
   return 0
 }
 demo() {
-  (cd $WT/demo && g++ -O1 -g -std=c++14 $INC demo.cpp $WT/_build/libIPhreeqcrwd.a -lpthread -o demo_confirm >> $LOG 2>&1) || return 99
+  (cd $WT/demo && g++ -O1 -g -std=c++14 $INC demo.cpp $WT/_build/libIPhreeqcrwd.a -lpthread $(cat LDFLAGS 2>/dev/null) -o demo_confirm >> $LOG 2>&1) || return 99
   (cd $WT/demo && timeout 600 ./demo_confirm >> $LOG 2>&1); return $?
 }
 git -C $WT checkout -- src >> $LOG 2>&1
